@@ -248,6 +248,8 @@ contract('Queue._wait_store', module=M, props=['C12'], yields=True,
 # ---------------------------------------------------------------------------- scheduler loop (C12)
 # ghost: the scheduler greenlet currently holds the timetable lock that flush() needs
 klass('Queue', ghost={'run_holds_lock': 'Bool'})
+klass('Pool')
+klass('Queue', fields={'store_pool': 'Pool', 'relay_pool': 'Pool', 'bounce_pool': 'Pool'})
 QSHARED = ['contents(self.queued)', 'contents(self.queued_ids)', 'self.queued', 'self.queued_ids',
            'contents(self.active_ids)', 'self.wake.flag', 'contents(self.pending_dequeue)',
            'contents(self.attempting)', 'contents(self.pending_retry)']
@@ -428,7 +430,8 @@ predicate('RESULTS_ok(results, envelope)',
           'and forall(envelope.recipients, lambda r: dict_has(results, r)) '
           'and forall(dict_keys(results), lambda r: r in seq(envelope.recipients)) '
           'and forall(dict_keys(results), lambda r: implies(isinstance(dict_get(results, r), RelayError), '
-          '      cast(dict_get(results, r), RelayError).reply != None '
+          '      allocated(cast(dict_get(results, r), RelayError)) and allocated(cast(dict_get(results, r), RelayError).reply) '
+          '      and cast(dict_get(results, r), RelayError).reply != None '
           '      and cast(dict_get(results, r), RelayError).reply.message is not None))')
 
 contract('Queue._handle_partial_relay', module=M, props=['C01', 'C03', 'C13'], yields=True,
@@ -471,9 +474,9 @@ contract('Queue._handle_partial_relay', module=M, props=['C01', 'C03', 'C13'], y
                              'forall(Int, lambda p: (p in delivered) == (0 <= p and p < len(envelope.recipients) '
                              '   and dict_index(results, envelope.recipients[p]) < _k '
                              '   and settled(dict_get(results, envelope.recipients[p]))))',
-                             'forall(tempfails, lambda t: t[1] != None and t[1].message is not None '
+                             'forall(tempfails, lambda t: t[1] != None and preexisting(t[1]) and t[1].message is not None '
                              '   and dict_has(results, t[0]) and transient(dict_get(results, t[0])))',
-                             'forall(permfails, lambda t: t[1] != None and t[1].message is not None '
+                             'forall(permfails, lambda t: t[1] != None and preexisting(t[1]) and t[1].message is not None '
                              '   and dict_has(results, t[0]) and permanent(dict_get(results, t[0])))',
                              'forall(range(0, _k), lambda j: implies(transient(dict_get(results, dict_keys(results)[j])), len(tempfails) > 0))',
                              'forall(range(0, _k), lambda j: implies(permanent(dict_get(results, dict_keys(results)[j])), len(permfails) > 0))',
@@ -504,7 +507,8 @@ extern('Relay._attempt', params={'self': 'Relay', 'envelope': 'Envelope', 'attem
                 'implies(is_type(result, List[RcptResult]), self.last_outcome == 2 '
                 '   and len(cast(result, List[RcptResult])) == len(envelope.recipients) '
                 '   and forall(cast(result, List[RcptResult]), lambda v: implies(isinstance(v, RelayError), '
-                '        cast(v, RelayError).reply != None and cast(v, RelayError).reply.message is not None)))',
+                '        allocated(cast(v, RelayError)) and allocated(cast(v, RelayError).reply) '
+                '        and cast(v, RelayError).reply != None and cast(v, RelayError).reply.message is not None)))',
                 'seq(envelope.recipients) == old(seq(envelope.recipients))', 'envelope.sender == old(envelope.sender)'],
        notes='relay result contract (Relay.attempt docstring + C01): None | Reply | mapping keyed by exactly the '
              'recipients | sequence of equal length; raises Transient/Permanent RelayError (with a reply) or '
